@@ -9,7 +9,8 @@ import numpy as np
 
 from ..common import V, samples_of, seed_offset
 
-OILS = [(200.0, 35.0, 0.8, 650.0), (120.0, 22.0, 0.65, 180.0), (300.0, 48.0, 1.1, 1900.0)]
+# the last oil has *integer-typed* parameters, as in the library's own docstrings (Fluid(200, 35, 0.8, 650))
+OILS = [(200.0, 35.0, 0.8, 650.0), (120.0, 22.0, 0.65, 180.0), (300.0, 48.0, 1.1, 1900.0), (200, 35, 0.8, 650)]
 DTYPES = ["f8", "f4", "i8", "i4"]
 LAYOUTS = ["contiguous", "stride2", "reversed"]
 ULPS = 64  # of the floating type involved: a dozen elementary operations and two powers
